@@ -5926,3 +5926,7 @@ mod tests {
 #[cfg(feature = "verif-hooks")]
 #[path = "verif/daemon.rs"]
 pub mod verif_hooks;
+
+#[cfg(feature = "verif-hooks")]
+#[path = "verif/logic.rs"]
+pub mod verif_logic;
